@@ -375,7 +375,10 @@ def gen_safe_spec(rng, unit_info, **kw):
 
 SOURCE_POOL = [None, None, ["user data", None], ["Hardware reference database", "https://hardware-db.example.org/servers/web-frontend"],
                ["Hardware reference database", "https://hardware-db.example.org/servers/database"],
-               ["Internal measurement", "https://wiki.example.org/measurements#2024"], ["Internal measurement", None]]
+               ["Internal measurement", "https://wiki.example.org/measurements#2024"], ["Internal measurement", None],
+               # names are free text: years and versions in parentheses, signs, brackets, dots
+               ["ADEME (Base Carbone v23)", "https://base-empreinte.example.org/v23"], ["RTE (eco2mix 2023)", None],
+               ["Vendor data sheet [rev. B+]", None], ["LCA study 2.1 * draft?", "https://lca.example.org/study?id=2.1"]]
 
 
 def with_random_sources(spec, rng):
